@@ -873,7 +873,7 @@ namespace detail
 	template<length_t L, qualifier Q>
 	GLM_FUNC_QUALIFIER vec<L, float, Q> uintBitsToFloat(vec<L, uint, Q> const& v)
 	{
-		return reinterpret_cast<vec<L, float, Q>&>(const_cast<vec<L, uint, Q>&>(v));
+		return detail::functor1<vec, L, float, uint, Q>::call(uintBitsToFloat, v);
 	}
 
 #	if GLM_HAS_CXX11_STL
